@@ -73,7 +73,7 @@ def case_conservation(case):
         q = np.zeros((nye, nxe))
         q[py + j, px + i] = 1.0
         sources.append(("impulse(%d,%d)" % (j, i), q))
-    for name, f in sl.fields(rng, ny, nx).items():
+    for name, f in list(sl.fields(rng, ny, nx).items()) + list(sl.scaled_fields(rng, ny, nx).items()):
         sources.append((name, np.pad(f, ((py, py), (px, px)))))
     v = []
     worst_f = worst_c = 0.0
@@ -287,6 +287,49 @@ def case_halo(case):
     return {"v": v[:6], "nt": True, "n": n, "obs": {"worst_rel_err": worst, "pad_cells": [px, py]}}
 
 
+def fine_cases(tier):
+    nls = (2048,) if tier == "quick" else (2048, 8192)
+    for nlay, prec, bg, p in itertools.product(nls, ("single", "double"), (0.0, 400.0, -3.0e4), ("most_u", "const")):
+        yield {"nlay": nlay, "prec": prec, "bg": bg, "prof": p}
+
+
+def case_fine_column(case):
+    """Conservation on a column of thousands of layers (a user refining the vertical grid), default single and double
+    precision, with a background that dwarfs the flux-induced deficit.  The mean concentration at a node is
+    bg - mean(source) * (trapezoid resistance of the given grid), which the harness sums in float64; storage rounding
+    allows a few units in the last place of the RESULT's precision, independent of the number of layers."""
+    S = sl.solver()
+    nx, ny, dom = 8, 6, (80.0, 90.0)
+    z, prof = sl.build_profiles(case["prof"], case["nlay"])
+    nz = len(z)
+    levels = [0, nz // 3, nz // 2, nz - 1]
+    prec, bg = case["prec"], case["bg"]
+    ulp = 1.2e-7 if prec == "single" else 2.3e-16
+    Rtr = sl.resistance_trapezoid(z, prof[4])[levels]
+    v = []
+    worst = 0.0
+    rng = np.random.default_rng(nz)
+    for name, q in (("impulse", sl.impulse(ny, nx, 2, 3)), ("dense", rng.uniform(0.5, 1.5, (ny, nx)))):
+        _, c, f = S(q, z, prof, dom, levels, modes=(4, 4), halo=0.0, srf_bg_conc=bg, precision=prec)
+        qm = q.mean()
+        cm = np.asarray(c, dtype=float).reshape(len(levels), -1).mean(axis=1)
+        fm = np.asarray(f, dtype=float).reshape(len(levels), -1).mean(axis=1)
+        want = bg - qm * Rtr
+        scale = abs(bg) + abs(qm) * Rtr.max()
+        e = float(np.max(np.abs(cm - want)) / scale)
+        ef = float(np.max(np.abs(fm - qm)) / max(abs(qm), float(np.abs(f).max())))
+        worst = max(worst, e / ulp, ef / ulp)
+        if not e <= 16 * ulp + 1e-12:
+            l = int(np.argmax(np.abs(cm - want)))
+            v.append({"sub": "fine-column", "sig": "fine-column/conc-mean/%s" % prec,
+                      "msg": "%s source, %d layers, bg %g, %s: mean concentration at node %d is %.10g, bg - mean flux x resistance = %.10g (off by %.1f units in the last place of the result precision, allowed 16); case %s"
+                      % (name, nz - 1, bg, prec, levels[l], cm[l], want[l], e / ulp, core.canon(case))})
+        if not ef <= 16 * ulp + 1e-12:
+            v.append({"sub": "fine-column", "sig": "fine-column/flux-mean/%s" % prec,
+                      "msg": "%s source, %d layers, %s: mean flux deviates from the mean source by %.1f units in the last place (allowed 16); case %s" % (name, nz - 1, prec, ef / ulp, core.canon(case))})
+    return {"v": v[:4], "nt": True, "n": 2, "obs": {"worst_ulps": round(worst, 2), "layers": nz - 1}}
+
+
 def run(ctx):
     os.environ["VERIF_SEED"] = str(ctx.seed)
     core.warm_numba()
@@ -301,4 +344,5 @@ def run(ctx):
     ctx.run_cases(case_conservation, cc, sub="conservation", chunksize=1)
     ctx.run_cases(case_unitmass, cc, sub="unit-mass", chunksize=1)
     ctx.run_cases(case_halo, halo_cases(ctx.tier), sub="halo-padding", chunksize=1)
+    ctx.run_cases(case_fine_column, fine_cases(ctx.tier), sub="fine column (thousands of layers), large background", chunksize=1)
     ctx.run_cases(case_int_column, [{"halo": h} for h in (0.0, 13.0, None)], sub="integer-typed column", chunksize=1)
